@@ -16,21 +16,65 @@ thread_local! {
     static POOL: RefCell<Option<rayon::ThreadPool>> = RefCell::new(None);
 }
 
+fn new_pool() -> rayon::ThreadPool {
+    rayon::ThreadPoolBuilder::new()
+        .num_threads(POOL_THREADS)
+        .stack_size(8 << 20)
+        .build()
+        .expect("cannot build rayon pool")
+}
+
+pub static TIMED_OUT: std::sync::atomic::AtomicBool = std::sync::atomic::AtomicBool::new(false);
+
+/// A search whose node counter has not moved for this long, and which has not returned, is
+/// reported as stuck. A running search counts a node every microsecond or so; the only phases
+/// without nodes (building the reported line, summing table usage) take microseconds. This is
+/// the only wall-clock oracle on the synchronous path and exists for loops that search no
+/// nodes, which the node clock cannot see. It has to be short: such loops can allocate fast.
+pub fn stall_limit() -> std::time::Duration {
+    std::time::Duration::from_secs(
+        std::env::var("VERIF_SEARCH_STALL_S").ok().and_then(|s| s.parse().ok()).unwrap_or(10),
+    )
+}
+
 /// Run `f` inside this harness thread's own rayon pool (scheduled workers block pool threads
-/// at a barrier, so pools are not shared between harness threads).
-pub fn in_pool<R: Send>(f: impl FnOnce() -> R + Send) -> R {
+/// at a barrier, so pools are not shared between harness threads). `progress` is polled while
+/// waiting; None is returned when it has not changed for `stall_limit()` and `f` has not
+/// finished: the pool with the stuck job is abandoned (leaked) and a fresh one is built for
+/// the next call.
+pub fn in_pool<R: Send + 'static>(f: impl FnOnce() -> R + Send + 'static, progress: impl Fn() -> u64) -> Option<R> {
     POOL.with(|p| {
         let mut p = p.borrow_mut();
         if p.is_none() {
-            *p = Some(
-                rayon::ThreadPoolBuilder::new()
-                    .num_threads(POOL_THREADS)
-                    .stack_size(8 << 20)
-                    .build()
-                    .expect("cannot build rayon pool"),
-            );
+            *p = Some(new_pool());
         }
-        p.as_ref().unwrap().install(f)
+        let (tx, rx) = std::sync::mpsc::channel();
+        p.as_ref().unwrap().spawn(move || {
+            let _ = tx.send(f());
+        });
+        let mut last = progress();
+        let mut last_change = std::time::Instant::now();
+        loop {
+            match rx.recv_timeout(std::time::Duration::from_millis(100)) {
+                Ok(r) => return Some(r),
+                Err(std::sync::mpsc::RecvTimeoutError::Timeout) => {
+                    let now = progress();
+                    if now != last {
+                        last = now;
+                        last_change = std::time::Instant::now();
+                    } else if last_change.elapsed() > stall_limit() {
+                        break;
+                    }
+                }
+                Err(std::sync::mpsc::RecvTimeoutError::Disconnected) => break,
+            }
+        }
+        // the job is stuck (or died without sending): never reuse this pool
+        TIMED_OUT.store(true, std::sync::atomic::Ordering::SeqCst);
+        if let Some(old) = p.take() {
+            std::mem::forget(old);
+        }
+        None
     })
 }
 
@@ -110,28 +154,41 @@ pub fn run(
     let depth = spec.depth.map(|d| d as usize);
     let cancel = spec.cancel_after.map(|c| c as usize);
     let seed = spec.seed;
-    let result: Result<(SearchArtifact, SyncReport, Vec<StatusEvent>), String> = in_pool(move || {
-        let mut events: Vec<StatusEvent> = vec![];
-        let r = catch_unwind(AssertUnwindSafe(|| {
-            let evaluator = Evaluator::default();
-            verif::analyze_sync(
-                state,
-                &evaluator,
-                seed,
-                depth,
-                Some(artifact),
-                Some(workers),
-                cancel,
-                overrun_cap,
-                &mut |e| events.push(e),
-            )
-        }));
-        match r {
-            Ok((a, rep)) => Ok((a, rep, events)),
-            Err(p) => Err(crate::runner::panic_message(&p)),
-        }
+    let probe = std::sync::Arc::new(verif::CancelProbe {
+        cancel_at: std::sync::atomic::AtomicUsize::new(cancel.unwrap_or(usize::MAX)),
+        overrun_cap: std::sync::atomic::AtomicUsize::new(overrun_cap),
+        total: std::sync::atomic::AtomicUsize::new(0),
+        after_cancel: std::sync::atomic::AtomicUsize::new(0),
     });
+    let watched = probe.clone();
+    let result: Option<Result<(SearchArtifact, SyncReport, Vec<StatusEvent>), String>> = in_pool(
+        move || {
+            let mut events: Vec<StatusEvent> = vec![];
+            let r = catch_unwind(AssertUnwindSafe(|| {
+                let evaluator = Evaluator::default();
+                verif::analyze_sync_with_probe(
+                    state,
+                    &evaluator,
+                    seed,
+                    depth,
+                    Some(artifact),
+                    Some(workers),
+                    probe,
+                    &mut |e| events.push(e),
+                )
+            }));
+            match r {
+                Ok((a, rep)) => Ok((a, rep, events)),
+                Err(p) => Err(crate::runner::panic_message(&p)),
+            }
+        },
+        move || watched.total.load(std::sync::atomic::Ordering::Relaxed) as u64,
+    );
     out.sched = sched.as_ref().map(|s| s.stats());
+    let result = match result {
+        Some(r) => r,
+        None => Err(format!("VERIF_TIMEOUT: the search has not returned and searched no node for {:?}", stall_limit())),
+    };
     match result {
         Ok((a, rep, events)) => {
             out.nodes_total = rep.nodes_total;
